@@ -279,7 +279,7 @@ Proof.
       destruct (lookup_lt_is_Some_2 (string_leaves (Pos.succ (h_next h)) ss) k) as [t Ht].
       { rewrite string_leaves_length. by apply lookup_lt_Some in Hk. }
       destruct (inv_q _ _ _ _ _ I k t Ht) as (x & d & -> & sb & s' & H1 & H2 & H3 & H4 & H5).
-      assert (sb = b) by lia. subst sb. congruence.
+      assert (sb = b) by lia. subst sb. pose proof (eq_trans (eq_sym H1) Hk) as Hss. injection Hss as ->. exact H5.
     + destruct (Pos.ltb_spec b (h_next h)) as [Hb|Hb].
       * rewrite <- Hs. by destruct (ext_below _ _ _ (inv_ext _ _ _ _ _ I) b Hb).
       * destruct (h_str Hc' !! b) as [s|] eqn:Eb.
